@@ -1225,9 +1225,28 @@ impl HandlerRunner {
                 let rid = self.name_rid(req.id.as_bytes(), 0);
                 let rb = self.rb_term(&resp.body);
                 let nas = self.na(&na);
+                let dst_addr = na.socket_addr;
                 let _ = self.nodes[xi].to_handler.send(HandlerIn::Response(na, Box::new(resp)));
                 stats.bump("h.op.resp");
+                let (w0, o0) = (self.wire.len(), out.len());
                 self.finish(Some(xi), Some(format!("appresp {} {} {}", nas, rid, rb)), 1, out, stats);
+                // C20 / C04: one response handed to the transport is one datagram at most
+                let needle = format!("|resp/{}/", rid);
+                let mut copies = 0;
+                for k in w0..self.wire.len() {
+                    let (from, dst, dst_id, bytes) = { let d = &self.wire[k]; (d.from_idx, d.dst, d.dst_id, d.bytes.clone()) };
+                    if from == xidx0 && dst == dst_addr {
+                        let di = self.id_idx_ro(&dst_id);
+                        if self.describe(&bytes, di, xidx0, false).map(|t| t.contains(&needle)).unwrap_or(false) {
+                            copies += 1;
+                        }
+                    }
+                }
+                if copies >= 2 {
+                    out.insert(o0, format!("!MON C20 response-put-on-the-wire-more-than-once node={} rid={} copies={}", xidx0, rid, copies));
+                    out.insert(o0, format!("!MON C04 response-put-on-the-wire-more-than-once node={} rid={} copies={}", xidx0, rid, copies));
+                }
+                if copies == 1 { stats.bump("h.response-sent-once"); }
             }
             // network delivers wire datagram #k: `hdel K` | `hdel K SRCADDRIDX` (spoofed source) |
             // `hdel K SRCADDRIDX TONODE` (redirected)
@@ -1876,7 +1895,8 @@ pub fn gen_case(rng: &mut Rng, tier: &str, profile: &str, stats: &mut Stats) -> 
                 let x = rng.range(1, n);
                 // (rarely a node is asked to talk to itself: refused at once, nothing on the wire)
                 let y = if rng.chance(1, 40) { x } else { other(rng, x) };
-                ops.push(format!("hreq {} {} {} {} {}", x, y, if rng.chance(3, 4) { "enr" } else { "raw" }, rid, rng.range(1, 4)));
+                let body = if profile == "C20" && rng.chance(2, 3) { 4 } else { rng.range(1, 4) };
+                ops.push(format!("hreq {} {} {} {} {}", x, y, if rng.chance(3, 4) { "enr" } else { "raw" }, rid, body));
                 rid += 1;
                 if y != x { emitted += 1; }
             }
